@@ -3,6 +3,7 @@ import MoSql.Gen.Levels
 import MoSql.Gen.FmtTable
 import MoSql.Script
 import MoSql.Query
+import MoSql.Lex
 /-
 Line-protocol driver: one JSON request per line on stdin, one JSON answer per line on stdout.
 Imports the model files and Lean's JSON library only (no Mathlib), so it is also built as the
@@ -239,6 +240,30 @@ def handleUnion (req : Json) : Except String String := do
   let sp := Query.spec first rest.length rest
   pure ("{\"model\":" ++ model.render ++ ",\"spec\":" ++ sp.render ++ "}")
 
+def optStr : Option (List Char) → String
+  | some cs => "{\"ok\":" ++ jstr (String.ofList cs) ++ "}"
+  | none => "{\"err\":true}"
+
+def handleLex (req : Json) : Except String String := do
+  let text ← req.getObjValAs? String "text"
+  let what ← req.getObjValAs? String "what"
+  let cs := text.toList
+  match what with
+  | "encodeSQ" => pure (optStr (some (Lex.encodeSQ cs)))
+  | "encodeDQ" => pure (optStr (some (Lex.encodeDQ cs)))
+  | "decodeImpl" => pure (optStr (Lex.decodeImpl cs))
+  | "decodeImplDQ" => pure (optStr (Lex.decodeImplDQ cs))
+  | "decodeSpec" => pure (optStr (Lex.decodeSpec cs))
+  | "matchSQ" =>
+    match Lex.matchSQ cs with
+    | some (b, r) => pure ("{\"body\":" ++ jstr (String.ofList b) ++ ",\"rest\":" ++ jstr (String.ofList r) ++ "}")
+    | none => pure "{\"err\":true}"
+  | "digits" =>
+    match text.toNat? with
+    | some n => pure ("{\"ok\":" ++ jstr (String.ofList (Lex.digits n)) ++ ",\"back\":" ++ jstr (toString (Lex.parseNat (Lex.digits n))) ++ "}")
+    | none => err "not a number"
+  | w => err ("unknown lex request " ++ w)
+
 def handleAccumulate (req : Json) : Except String String := do
   let outs ← req.getObjVal? "outs"
   match outs with
@@ -259,6 +284,7 @@ def handle (line : String) : String :=
       | .ok "script" => handleScript req
       | .ok "accumulate" => handleAccumulate req
       | .ok "union" => handleUnion req
+      | .ok "lex" => handleLex req
       | .ok "fmtTable" => pure handleFmtTable
       | .ok "ping" => pure "{\"pong\":true}"
       | .ok o => err ("unknown op " ++ o)
